@@ -123,6 +123,14 @@ pub fn build(seed: u64, rec: &mut Recorder) -> World {
     w.positions.insert(xb.clone(), info);
     let ix = w.ix_increase(&xb, "U1", 1_000_000_000, u64::MAX, u64::MAX, false);
     w.must_ix(&ix);
+    // X10: a position whose upper bound is exactly the first tick of a tick array (the array before it must not be accepted
+    // for that bound); X11-X13: positions WITHOUT liquidity on three pools (an empty position of another pool is still foreign)
+    open(&mut w, "P1", "U2", -128, 5632, PosKind::Plain, 2_000_000_000);
+    for (pool, owner) in [("P2", "U2"), ("P3", "U2"), ("P1", "U1")] {
+        let (ix, info) = w.ix_open_position(pool, owner, -256, 256, PosKind::Plain);
+        w.must_ix(&ix);
+        w.positions.insert(info.name.clone(), info);
+    }
     // rewards: P1 index 0 (R), 1 (C) and 2 (R again: two reward slots of one pool over the SAME mint), P2 index 0 (R) and
     // 1 (B, the pool's own token A): a vault must be told from another by its address, not by its mint
     for (pool, idx, mint) in [("P1", 0u8, "R"), ("P1", 1, "C"), ("P1", 2, "R"), ("P2", 0, "R"), ("P2", 1, "B")] {
@@ -459,7 +467,7 @@ pub fn run(cfg: &MatrixCfg, rec: &mut Recorder) {
     let mut n = 0usize;
     let rng_amt = |w: &mut World, lo: u64, hi: u64| -> u64 { w.rng.gen_range(lo..hi) };
     // ---- liquidity, fees, rewards on plain / token-extension / bundled positions
-    for (pos, user, v2) in [("X1", "U1", false), ("X2", "U2", true), ("X6", "U1", true), ("X9", "U1", false)] {
+    for (pos, user, v2) in [("X1", "U1", false), ("X2", "U2", true), ("X6", "U1", true), ("X9", "U1", false), ("X10", "U2", false), ("X10", "U2", true)] {
         let a = rng_amt(&mut w, 1_000_000, 9_000_000) as u128;
         { let ix = w.ix_increase(pos, user, a, u64::MAX, u64::MAX, v2); step(&mut w, rec, cfg, &mut n, ix); }
         { let ix = w.ix_decrease(pos, user, a / 2, 0, 0, v2); step(&mut w, rec, cfg, &mut n, ix); }
@@ -479,6 +487,8 @@ pub fn run(cfg: &MatrixCfg, rec: &mut Recorder) {
     // transfer needs the owner's signature - the program's own authority check is all that stands)
     { let ix = w.ix_reposition("X2", "U2", -384, 384, 1, 0, 0, u64::MAX, u64::MAX); step(&mut w, rec, cfg, &mut n, ix); }
     { let ix = w.ix_reposition("X2", "U2", -320, 320, 3_000_000_000, 0, 0, u64::MAX, u64::MAX); step(&mut w, rec, cfg, &mut n, ix); }
+    // an EMPTY position is given liquidity by a reposition (nothing to withdraw from the old range)
+    { let ix = w.ix_reposition("X13", "U1", -192, 320, 1_000_000, 0, 0, u64::MAX, u64::MAX); step(&mut w, rec, cfg, &mut n, ix); }
     // ---- swaps
     for (pool, v2) in [("P1", false), ("P1", true), ("PT", true), ("PA", true)] {
         { let ix = w.ix_swap(pool, "U3", 1_000_000, 0, 0, true, true, v2); step(&mut w, rec, cfg, &mut n, ix); }
